@@ -31,7 +31,7 @@ ASSUMPTIONS = [
     "snappy/zstandard/lz4 are not importable in this image (recorded in evidence), so only null/deflate/bzip2/xz are exercised",
     "allowed attribute set on a non-seekable output: write, flush, seekable; on the input: read (A5)",
 ]
-N = {"quick": 6400, "thorough": 160000}
+N = {"quick": 16000, "thorough": 320000}
 TIME_LIMIT = {"quick": 40, "thorough": 560}
 SHARDS = 16
 CODECS = ["null", "deflate", "bzip2", "xz"]
